@@ -801,7 +801,9 @@ func (x *Exec) assumeZeroOffsets(v *Value) {
 	switch v.K {
 	case KSlice:
 		if v.Off.Op != "int" {
+			// structural: the offset IS the literal 0 (keeps element indices free of symbolic offsets)
 			x.facts = append(x.facts, Eq(v.Off, IntLit(0)))
+			v.Off = IntLit(0)
 			x.trusted[offsetAssumption] = true
 		}
 	case KStruct, KTuple:
